@@ -484,6 +484,10 @@ impl World {
             let mut w = World { app, kind, admin, alice, token, target, lp, factory, router: None, helper: None, adv: None };
             if funded {
                 w.trio_provide(LIQ).unwrap();
+                // earlier swaps in both directions have left protocol fees above the collection threshold pending
+                // (so that fee collection moves something and a switch that silences it is seen)
+                w.run_path("trioSwapNative", LIQ / 4).unwrap();
+                w.run_path("trioSwapCw20Hook", LIQ / 4).unwrap();
             }
             return w;
         }
@@ -635,6 +639,9 @@ impl World {
         };
         if funded {
             w.pair_provide(LIQ).unwrap();
+            // earlier swaps in both directions have left protocol fees above the collection threshold pending
+            w.run_path("pairSwapNative", LIQ / 4).unwrap();
+            w.run_path("pairSwapCw20Hook", LIQ / 4).unwrap();
         }
         w
     }
